@@ -511,6 +511,43 @@ def lockstep_mismatch(model_cols: list, real_cols: list) -> Optional[dict]:
     return None
 
 
+def table_mismatch(real_rules: dict, model_rules: list) -> Optional[str]:
+    """the compiled rule tables as sets of alternatives per nonterminal (`_rules` / `_implicit_rules` hold sets); the
+    prediction order handed to the model only *orders* alternatives, so a missing or extra alternative must show here"""
+    def key(rhs):
+        return json.dumps(rhs, separators=(",", ":"))
+    m = {nt: {key(r) for r in alts} for nt, alts in model_rules}
+    r = {nt: {key(x) for x in alts} for nt, alts in real_rules.items()}
+    for nt in sorted(set(m) | set(r)):
+        if nt not in r:
+            return f"{nt}: the model compiles a rule the real table does not have"
+        if nt not in m:
+            return f"{nt}: the real table has a nonterminal the model does not compile"
+        if m[nt] != r[nt]:
+            return (f"{nt}: alternatives differ; model only {sorted(m[nt] - r[nt])[:2]}, "
+                    f"real only {sorted(r[nt] - m[nt])[:2]}")
+    return None
+
+
+def compile_corr(tasks: list[dict], reals: list[dict], cap) -> tuple[list[dict], int]:
+    """compare the real compiled table of every distinct grammar with the model's `compile G cap`;
+    returns (mismatches as correspondence records, number of tables compared)"""
+    from harness.common import driver_ask
+    seen: dict[str, dict] = {}
+    for t, r in zip(tasks, reals):
+        if "rules" in r and "grammar" in r and t["spec"] not in seen:
+            seen[t["spec"]] = r
+    specs = list(seen)
+    answers = driver_ask("drv_earley", [{"op": "compile", "grammar": seen[sp]["grammar"], "cap": cap} for sp in specs],
+                         timeout=900) if specs else []
+    bad = []
+    for sp, a in zip(specs, answers):
+        why = table_mismatch(seen[sp]["rules"], a["rules"])
+        if why is not None:
+            bad.append({"case": {"spec": sp}, "what": "compiled rule tables differ: " + why})
+    return bad, len(specs)
+
+
 def max_alts(rules: dict) -> int:
     return max([len(alts) for alts in rules.values()] + [1])
 
